@@ -117,11 +117,15 @@ func yamlEntry(p *prng, c yamlCase, key string) []string {
 
 var yamlFaultKinds = []string{"flow-seq-open", "flow-map-open", "flow-mismatch", "bad-start-char", "dquote-open", "squote-open",
 	"flow-deep", "over-indent", "tab-indent", "dup-key", "complex-key", "seq-in-map", "bad-escape", "colon-in-plain", "bad-anchor-char",
-	"unknown-alias", "bad-binary", "bad-merge", "insert", "truncate"}
+	"unknown-alias", "bad-binary", "bad-merge", "invalid-utf8", "insert", "truncate"}
+
+var yamlBadBytes = []string{"\xc3", "\xff", "\x80", "\xe3\x81", "\xed\xa0\x80"}
 
 // faultEntry returns the lines of the faulty entry.
 func faultEntry(c yamlCase, key, first string) []string {
 	switch c.Fault.Kind {
+	case "invalid-utf8": // the input itself is valid YAML but for the ill-formed bytes
+		return []string{key + ": \"k" + yamlBadBytes[max(c.Fault.At, 0)%len(yamlBadBytes)] + "(\""}
 	case "flow-seq-open":
 		return []string{key + ": [1, 2"}
 	case "flow-map-open":
@@ -293,7 +297,23 @@ func judgeYAML(c yamlCase, note func(r yamlRef, w want, known string)) string {
 	}
 	var w want
 	known := ""
-	if !r.positioned {
+	if !utf8.Valid(data) {
+		// the reader rejects the input at its first ill-formed byte: that
+		// byte is the offending one, whatever mark the library attaches
+		if !strings.Contains(r.msg, "UTF-8") {
+			rec.Discard("yaml/ill-formed-input-with-another-error")
+			return ""
+		}
+		p := 0
+		for !illFormedAt(data, p) {
+			p++
+		}
+		w = locate(data, p)
+		r.positioned, r.line = true, w.Line
+		if knownClass("C17/yaml-invalid-utf8") {
+			known = "C17/yaml-invalid-utf8"
+		}
+	} else if !r.positioned {
 		// the library gives no position: only faults placed by construction can be judged
 		if knownClass("C17/yaml-unpositioned") {
 			known = "C17/yaml-unpositioned"
